@@ -177,6 +177,10 @@ func c13(c *core.Ctx) {
 	for s := range states {
 		c.Distinct(gen.HashString(fmt.Sprintf("state%+v", s)))
 	}
+	// many transactions expiring in one Collect: exactly those with deadline < t, all of them, in that single call
+	c.Section("mass-expiry", c.N(60, 2000), func(_ int64, r *gen.Rand) {
+		c13Mass(c, r)
+	})
 	// long random sequences over many ids, deadlines on both sides of the collect times, re-entrant handlers
 	c.Section("random-long", c.N(2000, 50000), func(_ int64, r *gen.Rand) {
 		c13Random(c, r)
@@ -375,4 +379,69 @@ func sortStrings(s []string) {
 			s[j], s[j-1] = s[j-1], s[j]
 		}
 	}
+}
+
+// c13Mass registers n transactions with deadlines on both sides of a collect time and collects once.
+func c13Mass(c *core.Ctx, r *gen.Rand) {
+	n := r.PickInt([]int{1, 99, 100, 101, 137, 100 + r.Intn(400), 1000})
+	timeouts := map[[stun.TransactionIDSize]byte]int{}
+	others := 0
+	a := stun.NewAgent(func(e stun.Event) {
+		if amEventClass(e) == evTimeout {
+			timeouts[e.TransactionID]++
+		} else {
+			others++
+		}
+	})
+	cut := amEpoch.Add(time.Second)
+	want := map[[stun.TransactionIDSize]byte]bool{}
+	for i := 0; i < n; i++ {
+		var id [stun.TransactionIDSize]byte
+		id[0], id[1], id[2] = byte(i), byte(i>>8), 0x4D
+		d := cut.Add(time.Duration(r.Range(-3, 3)) * time.Nanosecond)
+		if r.Chance(1, 4) {
+			d = cut.Add(time.Hour)
+		}
+		if err := a.Start(id, d); err != nil {
+			c.Violate("mass-start", "mass-start", err.Error())
+
+			return
+		}
+		if d.Before(cut) {
+			want[id] = true
+		}
+	}
+	if err := a.Collect(cut); err != nil {
+		c.Violate("mass-collect", "mass-collect", err.Error())
+
+		return
+	}
+	c.Eval(1)
+	c.Count("calls_compared", int64(n)+1)
+	c.Count("events_compared", int64(len(timeouts)))
+	bad := others != 0 || len(timeouts) != len(want)
+	for id, k := range timeouts {
+		if k != 1 || !want[id] {
+			bad = true
+		}
+	}
+	if bad {
+		c.Violate("spec-mismatch-mass-expiry", "spec-mismatch:Collect-mass", map[string]interface{}{
+			"registered": n, "deadline_before_collect_time": len(want), "timeout_events": len(timeouts), "other_events": others,
+		})
+
+		return
+	}
+	// the survivors are still registered: Close emits exactly one closed event for each
+	closed := 0
+	_ = a.SetHandler(func(e stun.Event) {
+		if amEventClass(e) == evClosed {
+			closed++
+		}
+	})
+	_ = a.Close()
+	if closed != n-len(want) {
+		c.Violate("spec-mismatch-mass-expiry", "spec-mismatch:Close-after-mass", map[string]interface{}{"registered": n, "expired": len(want), "closed_events": closed})
+	}
+	c.Distinct(r.U64())
 }
